@@ -77,4 +77,10 @@ CHECKS = {
         text="Every history up to depth 3 (thorough 4) over 7 modifications (rewrite same/other size, touch; +0/+1/+3600 s) x 'run the request battery here or not'; the battery issues a plain GET and 8 validator forms (ETag, Last-Modified, both, list, weak, weak in list with and without space, *) for the validators of every version recorded so far, on Files and Pages, WSGI and ASGI, each app instance living through the whole history. 304 only for the unchanged version (and empty), 200 with new content and a new ETag after a change, own ETag always revalidates.",
         note="os.stat wrapped for the harness tree (mtime = ctime = virtual time); a same-second change is not judged for a request carrying only the date; depth bound",
     ),
+    "C18": dict(
+        engine="explore", level="exploration", design_ref="DESIGN.md §3 C18",
+        technique="bounded exhaustive enumeration of URL reconstruction inputs and component-replacement subsets against component-wise expectations",
+        text="Reconstruction over 4 schemes x 6 server addresses x 4 Host values x 2 root paths x 7 paths x 3 queries from a WSGI environ and an ASGI scope (compared with the components and with each other); replacement over 12 base URLs (named/IPv4/IPv6, user/password/port present or not) x every subset of <=4 (thorough: all 8) components x 1-3 new values each incl. passwords with '@', ':' and '%40'; the three query helpers on 6 base queries against list-of-pairs semantics; repr password masking.",
+        note="finite value menus; two known findings ('?' and '#' in the decoded path) are listed in known_findings.json",
+    ),
 }
